@@ -168,6 +168,9 @@ func pctEncode(p []byte, need func(byte) bool) string {
 func htmlSafeEncode(c byte) bool { return !strictKeep(c) || c == '&' }
 
 func isValidEnc(ei int, p []byte) bool {
+	if ei == 4 {
+		return false
+	}
 	if ei >= 2 {
 		return true
 	}
@@ -233,12 +236,31 @@ const guard = 16
 // CheckOne runs DataURI on one input under one registry.
 // wellFormed: the input is validly encoded (strict rules apply: equality of decoded content and length).
 func CheckOne(reg registry, in string, wellFormed, validEnc bool) (kind, what, out string) {
+	kind, what, out = checkOne(reg, in, wellFormed, validEnc, false)
+	if kind != "" {
+		return
+	}
+	// the same call on a slice WITH spare capacity: the dependency's parse.Input then works in
+	// the caller's buffer instead of a copy, so every in-place rewrite of the embedded minifier
+	// reaches the bytes DataURI may hand back
+	if k2, w2, o2 := checkOne(reg, in, wellFormed, validEnc, true); k2 != "" {
+		return k2 + ":with-spare-capacity", w2, o2
+	} else if o2 != out {
+		return "capacity-dependent", fmt.Sprintf("result %q for a slice with cap==len, %q for one with spare capacity", out, o2), o2
+	}
+	return
+}
+
+func checkOne(reg registry, in string, wellFormed, validEnc, roomy bool) (kind, what, out string) {
 	buf := make([]byte, guard+len(in)+guard)
 	for i := range buf {
 		buf[i] = 0xAA
 	}
 	copy(buf[guard:], in)
 	arg := buf[guard : guard+len(in) : guard+len(in)] // cap == len: the statement does not forbid use of spare capacity
+	if roomy {
+		arg = append(make([]byte, 0, len(in)+64), in...)
+	}
 	var res []byte
 	if p := core.Recover(func() { res = minify.DataURI(reg.m, arg) }); p != "" {
 		return "panic", p, ""
@@ -303,8 +325,8 @@ func CheckOne(reg registry, in string, wellFormed, validEnc bool) (kind, what, o
 	if !dout.base64 {
 		for i := 0; i < len(data); i++ {
 			if mustEncode(data[i]) && !(data[i] == '%' && i+2 < len(data) && isHex(data[i+1]) && isHex(data[i+2])) {
-				if !wellFormed && out == in {
-					break
+				if out == in {
+					break // the input handed back unchanged: the helper did not produce this encoding
 				}
 				return "invalid-encoding", fmt.Sprintf("output %q contains raw byte 0x%02X in its payload", out, data[i]), out
 			}
@@ -346,6 +368,9 @@ func encodings(payload []byte) []string {
 		"," + pctEncode(payload, func(c byte) bool { return !strictKeep(c) }),
 		"," + pctEncode(payload, func(byte) bool { return true }),
 		";base64," + b64,
+		// sloppy but common: everything printable left raw (spaces, quotes, <, >), as hand-written
+		// `url("data:image/svg+xml,<svg ...>")`; not validly encoded, but it decodes
+		"," + pctEncode(payload, func(c byte) bool { return c < 0x20 || c >= 0x7F || c == '%' || c == '#' }),
 	}
 }
 
@@ -354,7 +379,7 @@ func encodings(payload []byte) []string {
 // encoded", so the never-longer clause is only applied to encodings 1..3.
 func runPayloads(c *core.Check, regs []registry, name string, hdrs []string, n uint64, payloadAt func(i uint64) []byte) {
 	st := c.Family(name)
-	st.Bound = fmt.Sprintf("%d payloads x %d headers x 4 encodings x %d registries", n, len(hdrs), len(regs))
+	st.Bound = fmt.Sprintf("%d payloads x %d headers x 5 encodings x %d registries", n, len(hdrs), len(regs))
 	c.ParallelRange(name, n, func(i uint64) {
 		p := payloadAt(i)
 		var cases, nt uint64
@@ -431,7 +456,7 @@ func CheckMediatype(in string) (kind, what, out string) {
 
 // Run executes C18.
 func Run(c *core.Check) {
-	c.Rule = "DataURI: every payload of length <=2 over all 256 byte values and of length <=L over a 20-symbol structural alphabet, encoded four valid ways (minimal percent, RFC 3986 strict percent, full percent, padded base64), under a list of media-type headers and four registries (none, real css+svg, stubs, failing stubs); plus malformed variants. Mediatype: every sequence of <=N tokens over a 12-token alphabet incl. quoted strings (balanced quotes only: an unterminated quote has no defined inside/outside). Non-trivial = output differs from input; distinct = distinct (registry,input)"
+	c.Rule = "DataURI: every payload of length <=2 over all 256 byte values and of length <=L over a 20-symbol structural alphabet, encoded five ways (minimal percent, RFC 3986 strict percent, full percent, padded base64, and sloppy: printable characters raw), under a list of media-type headers and four registries (none, real css+svg, stubs, failing stubs); plus malformed variants. Mediatype: every sequence of <=N tokens over a 12-token alphabet incl. quoted strings (balanced quotes only: an unterminated quote has no defined inside/outside), and every single byte and 576 byte pairs in three contexts. Non-trivial = output differs from input; distinct = distinct (registry,input)"
 	c.Assumptions = []string{"own RFC 2397 decoder", "expected payload = registry.Bytes(mediatype, decoded payload)", "percent-encoding validity: controls, space, non-ASCII, '#', '%' must be escaped"}
 	regs := registries()
 	// (a) all byte strings of length <= 2, two headers
@@ -463,7 +488,10 @@ func Run(c *core.Check) {
 		return b
 	})
 	// (c) realistic payloads
-	real := []string{"a { color : red }", "<svg xmlns=\"http://www.w3.org/2000/svg\"><path d=\"M 10 10 L 20 20\"/></svg>", "a{b:url(x y)}", "body{margin:0px 0px 0px 0px}", strings.Repeat("\xff\x00", 40), strings.Repeat("a b", 30), "<svg><rect width='10px' height='+5'/></svg>", "a+b", "1 + 1"}
+	real := []string{"a { color : red }", "<svg xmlns=\"http://www.w3.org/2000/svg\"><path d=\"M 10 10 L 20 20\"/></svg>", "a{b:url(x y)}", "body{margin:0px 0px 0px 0px}", strings.Repeat("\xff\x00", 40), strings.Repeat("a b", 30), "<svg><rect width='10px' height='+5'/></svg>", "a+b", "1 + 1",
+		"<svg viewBox=\"0 0 10 10.0\"><path d=\"M0 0L10 10z\" fill=\"#FF0000\" stroke=\"#00FF00\"/></svg>", "A { COLOR : #FF0000 ; MARGIN : 0PX }", "a{b:c}  ", "<svg><text> a  b </text></svg>",
+		// no '#' or '%': the sloppy encoding of these contains no escape at all
+		"<svg viewBox=\"0 0 10 10.0\"><path d=\"M0 0 L10 10 z\" fill=\"red\"/></svg>", "<svg><rect x=\"0.50\" y=\"1.0\" width=\"10.00\"/></svg>", "A { COLOR : RED ; MARGIN : 0PX 0PX }"}
 	runPayloads(c, regs, "realistic", append(append([]string{}, headers...), headersSloppy...), uint64(len(real)), func(i uint64) []byte { return []byte(real[i]) })
 	// (d) malformed variants: not well-formed, lenient rules
 	mal := []string{"data:", "data:,", "data", "data:text/css", "data:;base64", "data:;base64,!!!!", "data:;base64,YQ", "data:;base64,YQ=", "data:;base64,YQ==", "data:;base64,YQ==x", "data:,%", "data:,%4", "data:,%zz", "data:,%41",
@@ -481,6 +509,41 @@ func Run(c *core.Check) {
 			}
 		}
 	}
+	// (e') Mediatype on every byte: `text/x` B `;a=b`, `a="` B `"` and B alone for all 256 byte values
+	// and all pairs of the 24 bytes that some notion of white space, case or quoting could touch
+	special := []byte{' ', '\t', '\n', '\r', '\f', '\v', 0x85, 0xA0, 0xC2, 0xC3, 0xE3, 0x80, 'A', 'Z', 'a', '"', '\'', ';', '=', '/', 0, 0x7F, 0xFF, '\\'}
+	var mtBytes []string
+	for b := 0; b < 256; b++ {
+		mtBytes = append(mtBytes, string([]byte{byte(b)}))
+	}
+	for _, x := range special {
+		for _, y := range special {
+			mtBytes = append(mtBytes, string([]byte{x, y}))
+		}
+	}
+	c.Family("mediatype-bytes").Bound = fmt.Sprintf("%d byte strings x 3 contexts", len(mtBytes))
+	c.ParallelRange("mediatype-bytes", uint64(len(mtBytes)), func(i uint64) {
+		for _, ctx := range []string{"%s", "text/x%s;a=b", "t/p;a=\"%s\";c"} {
+			if strings.Contains(ctx, "\"") && strings.Contains(mtBytes[i], "\"") {
+				continue // would unbalance the quotes
+			}
+			in := strings.Replace(ctx, "%s", mtBytes[i], 1)
+			if strings.Count(in, "\"")%2 == 1 {
+				continue // an unterminated quoted string has no defined inside/outside
+			}
+			kind, what, out := CheckMediatype(in)
+			c.Count(1)
+			nt := uint64(0)
+			if out != in {
+				nt = 1
+				c.Nontrivial("Mediatype", in)
+			}
+			c.AddFamily("mediatype-bytes", 1, nt)
+			if kind != "" {
+				c.Fail(core.Failure{Family: "mediatype-helper", Input: in, Kind: kind, What: what, Order: i})
+			}
+		}
+	})
 	// (e) Mediatype helper
 	seqM := core.Sequences{K: len(mtTokens), MaxLen: c.Pick(5, 7)}
 	c.Family("mediatype-helper").Bound = fmt.Sprintf("all sequences of <=%d tokens over %d tokens", seqM.MaxLen, seqM.K)
@@ -520,4 +583,12 @@ func Replay(f core.Failure) (string, string) {
 		}
 	}
 	return "replay-error", "unknown registry"
+}
+
+// Debug prints the verdict for one input under every registry (development aid).
+func Debug(in string) {
+	for _, reg := range registries() {
+		k, w, out := CheckOne(reg, in, true, false)
+		fmt.Printf("%s: kind=%q what=%s out=%q\n", reg.name, k, w, out)
+	}
 }
